@@ -288,6 +288,20 @@ func (ex *Exec) checkReturn(fr *Frame, ct *Contract, r retInfo, ord int) {
 // checkFrame: every heap component is unchanged except where modifies allows.
 func (ex *Exec) checkFrame(fr *Frame, st *State, ct *Contract, ord int, pos token.Pos) {
 	key := funcKey(fr.fn)
+	if ct.ModAll {
+		// only the excepted components are framed
+		for _, e := range ct.ModExcept {
+			comp := ct.PkgPath + "." + e
+			ex.ensureComp(st, comp)
+			init := ex.initialComp(comp)
+			cur := ex.compTerm(st, comp)
+			if cur == init {
+				continue
+			}
+			ex.obligeNamed(st, fmt.Sprintf("%s#frame(%s)@ret%d", key, comp, ord), "frame", sEq(cur, init), "frame: "+comp+" is not modified", pos)
+		}
+		return
+	}
 	allowedWhole := map[string]bool{}
 	allowedAt := map[string][]string{}  // comp -> refs
 	allowedIn := map[string][]string{}  // comp -> sets
